@@ -74,3 +74,25 @@ pub fn quiet_panics() {
         }
     }));
 }
+
+/// Creates a connected loopback TCP socket pair `(client, server)`.
+///
+/// Retries for a while if the ephemeral port range is exhausted.
+pub fn loopback_pair() -> (std::net::TcpStream, std::net::TcpStream) {
+    let mut last = String::new();
+    for _ in 0..240 {
+        let attempt = (|| -> std::io::Result<_> {
+            let l = std::net::TcpListener::bind("127.0.0.1:0")?;
+            let c = std::net::TcpStream::connect(l.local_addr()?)?;
+            let (s, _) = l.accept()?;
+            Ok((c, s))
+        })();
+        match attempt {
+            Ok(pair) => return pair,
+            Err(err) => last = err.to_string()
+        }
+        std::thread::sleep(std::time::Duration::from_millis(500));
+    }
+    eprintln!("machinery error: cannot create a loopback connection: {last}");
+    std::process::exit(2)
+}
